@@ -310,6 +310,7 @@ func TestVerif_C16(t *testing.T) {
 			lg := &c16Log{}
 			var reqMu sync.Mutex
 			var reqs []c16Req
+			testFound := 0
 			stop := make(chan struct{})
 			var wg sync.WaitGroup
 			svc := &service{}
@@ -691,8 +692,21 @@ func TestVerif_C16(t *testing.T) {
 						break
 					}
 					c.Count("test_recordings_found", 1)
+					testFound++
 				}
 				r.cleanup()
+			}
+			// requests the service accepted while frames were flowing produce files: not one of them
+			// in a whole repetition means the test recorder no longer works next to the frame loop
+			accepted := 0
+			for _, q := range reqs {
+				if q.Kind == "TakeTestRecording" && q.ErrText == "" {
+					accepted++
+				}
+			}
+			if accepted >= 50 && testFound == 0 {
+				c.Violation("recordings-disturbed", "test recordings missing", fmt.Sprintf("%d TakeTestRecording calls were accepted during %d connections of %d frames, not one 21-frame test recording was found", accepted, nConn, framesPerConn))
+				return
 			}
 			c.Count("connections", int64(nConn))
 			c.Count("frames", int64(nConn*framesPerConn))
